@@ -29,7 +29,7 @@ def main():
     if a.replay:
         with open(a.replay) as f:
             case = json.load(f)
-        d = mod.replay(case)
+        d = runner.replay_shard(case) if case.get("engine") == "shard" else mod.replay(case)
         if d is None:
             print(f"replay {a.replay}: property held (no violation reproduced)")
             return 0
